@@ -10,6 +10,29 @@ VERIF = Path(__file__).resolve().parent.parent
 ALL = [f"C{i:02d}" for i in range(1, 21)]
 titles = {json.loads(l)["id"]: json.loads(l)["title"] for l in (VERIF / "properties.jsonl").read_text().splitlines() if l.strip()}
 
+HEAD = {
+    "C01": "C01_default_style / C01_same_program: format(parse(src)) is a valid chunk with the source's reference tree up to normS, for every documented style",
+    "C02": "C02_minified_style (same statement for MinifiedStyle, no comment hypothesis) + C02_boundary (no fusion where sep_required says none) + Format_lex_exact",
+    "C03": "C03_parse_complete / C03_accept_iff: every valid chunk (in-scope strings) is accepted with the reference tree modulo parentheses; C03_ladder_is_climb",
+    "C04": "C04_lookup, C04_no_require, C04_terminates (explicit depth bound for acyclic expression-level requires), C04_formats_valid_final",
+    "C05": "Lex_sound / Lex_complete (whole-lexer agreement with the reference lexer), C05_model_reads, C05_long_brackets, C05_comments",
+    "C06": "C06_quoted, C06_long, C06_forms, C06_wrapped: every written form, including the \\z wrapping, is read back to the value by the reference readers",
+    "C07": "C07_partial (kind and exact value kept except K2/K3), C07_canonical, Lex_sound/complete for numerals in context",
+    "C08": "C01_same_program for every DocStyle, C08_* (each layout pass), C08_comment_wf, C06_wrapped, C08_wrap_progress, Format_lex (trailing comma only before `}`)",
+    "C09": "C09_parse_total_final, C09_parser_terminates, C09_lexer_total/terminates, C09_error_positions (exhaustive: tree, LexerError or ParserError with a position inside the text)",
+    "C10": "C10_parse_sound: a successful parse of a CR-free text implies the reference lexer and parser accept the whole text as one chunk with the same tree modulo parentheses",
+    "C11": "C11_roundtrip, C11_precOK, brackets_sound_all (decide over the extracted 9568-entry table), Print_sim for general atoms",
+    "C12": "C12_wrong_args_*, C12_missing_*, C12_untouched, C12_errors, C12_stmt_cycles_terminate",
+    "C13": "C13_parsed, C13_emit_on/off, C13_placement, C08_comment_wf, Format_comments (comments found in the final text are the emitted comment pieces, in order)",
+    "C14": "C14_noninterference (any interleaving of any histories) + no_shared_writes / format_leaves_arguments decided on the re-extracted static scan",
+    "C15": "no idempotence theorem: C02_minified_style + the layout theorems bound what can differ; decided by byte comparison of two minify passes in the oracle stream (proof level claimed for the pieces, see level_note)",
+    "C16": "C16_positions, C16_reference_position, C16_eof, C16_advance, C09_error_positions",
+    "C17": "C17_links, C17_walk (generic tree model) + schema_links/walk/replace/exercised decided on the re-extracted class schema",
+    "C18": "C18_eq (== iff structural identity on the generic model) + schema_eq decided on the re-extracted class schema",
+    "C19": "C19_ok (chain empty on success), C19_rejected (hint positions non-decreasing, none after the offending token), C19_lexer_monotone",
+    "C20": "C20_delivery, C20_all_comments, C05_comments, Lex_sound / Lex_complete (no comment text becomes a token, no token is swallowed)",
+}
+
 checks = []
 for pid in ALL:
     if pid not in props.REGISTRY:
@@ -29,7 +52,8 @@ for pid in ALL:
             "design_ref": f"DESIGN.md section 6 ({pid})",
         },
         "level_note": spec.get("level_note", "; ".join(spec.get("partial_hypotheses", [])) or "see DESIGN.md section 9 (trusted base)"),
-        "technique": spec.get("technique", "machine-checked proof in Lean 4 + regenerated tables + differential correspondence against a Lean reference of Lua 5.4"),
+        "technique": "machine-checked proof in Lean 4 (" + HEAD[pid] + ") about hand-written models tied to /repo on every run by regenerated tables (T1) and "
+                     "differential correspondence (T2); the reference-parser / reference-lexer oracle streams search for a failing input when a proof or tie breaks",
     })
 manifest = {
     "version": 1,
